@@ -8,6 +8,8 @@ import OvniModel.Lemmas.CoreBayView
 import OvniModel.Lemmas.CoreBayTotal
 import OvniModel.Lemmas.CoreBayFresh
 import OvniModel.Lemmas.EmitEmu
+import OvniModel.Lemmas.EmitInit
+import OvniModel.Emu.Basic
 
 /-!
 # C06 — view consistency: the tracking muxes compute `thView` / `cpuView`
@@ -964,8 +966,8 @@ theorem fresh_cpuView {e : Emu} {b0 b : Bay} {fresh : Nat → Bool} (hc : e.shap
       the other lines of `L` repeat the value their row already shows (first
       emission of a null, `PRV_EMITDUP`, non-null `PRV_SKIPDUPNULL` duplicates);
     * `EmitInv` holds again with the rows updated by `L`;
-    * when `viewRecords e e'` (the model part of `records`) succeeds and the mux
-      defaults are legal values, `viewRecordsC e e'` succeeds too. -/
+    * `viewRecordsC e e'` succeeds iff `viewRecords e e'` (the model part of
+      `records`) does (⇐ when the mux defaults are legal Paraver values). -/
 theorem emit_step {e e' : Emu} {b0 b : Bay} {fresh : Nat → Bool} {lvs : List (Option Value)} {tvs : List Int}
     (hc : e.shape.connect = .ok b0) (hs : Shaped e) (hi : Inv b0 e b) (hf : FreshInv e.shape b fresh)
     (hE : EmitInv e.shape.regs lvs tvs b) (hfl : SpecFlagsOk e.specs) (hsim : Sim e e') :
@@ -979,7 +981,8 @@ theorem emit_step {e e' : Emu} {b0 b : Bay} {fresh : Nat → Bool} {lvs : List (
         ∃ lvs' L Lr, b1.propagateP e.shape.regs lvs = .ok (bF, lvs', L) ∧ L.Perm Lr ∧
           vr = (Lr.filter (effective tvs)).map (·.2) ∧ EmitInv e.shape.regs lvs' (tvStep tvs L) bF) ∧
       (CpuDfltOk e.specs → ∀ v, viewRecords e e' = .ok v →
-        ∃ vr, viewRecordsC e e' fresh (freshE fresh e') = .ok vr) := by
+        ∃ vr, viewRecordsC e e' fresh (freshE fresh e') = .ok vr) ∧
+      (∀ vr, viewRecordsC e e' fresh (freshE fresh e') = .ok vr → ∃ v, viewRecords e e' = .ok v) := by
   obtain ⟨hs', hshape', _⟩ := hsim hs
   obtain ⟨hsF, hshF, b1, bF, em, hwP, hm1, _, hp, hinv⟩ := hi.step hc hs hsim
   have hw : Bay.Writes (· < e.shape.L) b b1 := hwP.mono (fun _ h => Shape.okP_lt h)
@@ -1029,22 +1032,44 @@ theorem emit_step {e e' : Emu} {b0 b : Bay} {fresh : Nat → Bool} {lvs : List (
     viewRecs_eq_viewRecordsC hs' hshape' hthO hthN hcpO hcpN
   obtain ⟨h1, h2, h3⟩ := Bay.emit_step hi.wf hw hp hE (Shape.regs_flags hfl)
   rw [heq] at h1 h3
-  refine ⟨b1, bF, em, hw, hm1, hp, hsF, hshF, hinv, hfF, h1, h2, h3, ?_⟩
-  intro hd v hv
-  refine viewRecordsC_ok ?_ (hspecs' ▸ hd) hv
-  intro x' hx' hfc ms hms i hil hdn
-  obtain ⟨cg, hcg⟩ := List.mem_iff_getElem?.mp hx'
-  have hgi : x'.gindex = cg := hs'.cpuIdx cg x' hcg
-  have hcl : cg < e.cpus.length := by
-    have : e'.cpus.length = e.cpus.length := congrArg Shape.nC hshape'
-    rw [← this]; exact (List.getElem?_eq_some_iff.mp hcg).1
-  have hx : e.cpus[cg]? = some e.cpus[cg] := List.getElem?_eq_getElem hcl
-  have hxo : e.cpus.getD x'.gindex x' = e.cpus[cg] := by
-    rw [hgi]; simp [List.getD_eq_getElem?_getD, List.getElem?_eq_getElem hcl]
-  rw [hspecs'] at hms
-  obtain ⟨k, hk⟩ := List.mem_iff_getElem?.mp hms
-  rw [hxo]
-  exact fresh_cpuView hc hs hi hf hx hk hil (hgi ▸ hfc) hdn
+  have hfreshO : ∀ x' ∈ e'.cpus, fresh x'.gindex = true → ∀ ms ∈ e'.specs, ∀ (i : Nat), i < ms.nch →
+      ms.cpuDflt i ≠ .null → cpuView e (e.cpus.getD x'.gindex x') ms i = ms.cpuDflt i := by
+    intro x' hx' hfc ms hms i hil hdn
+    obtain ⟨cg, hcg⟩ := List.mem_iff_getElem?.mp hx'
+    have hgi : x'.gindex = cg := hs'.cpuIdx cg x' hcg
+    have hcl : cg < e.cpus.length := by
+      have : e'.cpus.length = e.cpus.length := congrArg Shape.nC hshape'
+      rw [← this]; exact (List.getElem?_eq_some_iff.mp hcg).1
+    have hx : e.cpus[cg]? = some e.cpus[cg] := List.getElem?_eq_getElem hcl
+    have hxo : e.cpus.getD x'.gindex x' = e.cpus[cg] := by
+      rw [hgi]; simp [List.getD_eq_getElem?_getD, List.getElem?_eq_getElem hcl]
+    rw [hspecs'] at hms
+    obtain ⟨k, hk⟩ := List.mem_iff_getElem?.mp hms
+    rw [hxo]
+    exact fresh_cpuView hc hs hi hf hx hk hil (hgi ▸ hfc) hdn
+  have hfreshN : ∀ x' ∈ e'.cpus, freshE fresh e' x'.gindex = true → ∀ ms ∈ e'.specs, ∀ (i : Nat), i < ms.nch →
+      ms.cpuDflt i ≠ .null → cpuView e' x' ms i = ms.cpuDflt i := by
+    intro x' hx' hfc ms hms i hil hdn
+    obtain ⟨cg, hcg⟩ := List.mem_iff_getElem?.mp hx'
+    have hgi : x'.gindex = cg := hs'.cpuIdx cg x' hcg
+    have hxF : e'.flushAll.cpus[cg]? = some
+        { x' with chNrun := x'.chNrun.flush, chPid := x'.chPid.flush, chTid := x'.chTid.flush,
+                  chThrun := x'.chThrun.flush, chThact := x'.chThact.flush } := by
+      simp only [Emu.flushAll, List.getElem?_map, hcg, Option.map_some]
+    rw [hspecs'] at hms
+    obtain ⟨k, hk⟩ := List.mem_iff_getElem?.mp hms
+    have := fresh_cpuView hcF hsF hinv (hshF.symm ▸ hfF) hxF (hspecsF ▸ hk) hil (hgi ▸ hfc) hdn
+    rw [cpuView_flushAll] at this
+    exact this
+  refine ⟨b1, bF, em, hw, hm1, hp, hsF, hshF, hinv, hfF, h1, h2, h3, ?_, ?_⟩
+  · intro hd v hv
+    exact viewRecordsC_ok hfreshO (hspecs' ▸ hd) hv
+  · intro vr hvr
+    refine viewRecords_ok_of_C ?_ hfreshO hfreshN hvr
+    intro c hfc
+    unfold freshE at hfc
+    simp only [Bool.and_eq_true] at hfc
+    exact hfc.1
 
 /-- **emu_event with the emit phase** (`emit_step` for the handlers of one
     accepted event).  `emu_event` gives the values of all rows after the event;
@@ -1065,8 +1090,284 @@ theorem emu_event_emit {e e' : Emu} {b0 b : Bay} {ti mc c v : Nat} {p : List Nat
         ∃ lvs' L Lr, b1.propagateP e.shape.regs lvs = .ok (bF, lvs', L) ∧ L.Perm Lr ∧
           vr = (Lr.filter (effective tvs)).map (·.2) ∧ EmitInv e.shape.regs lvs' (tvStep tvs L) bF) ∧
       (CpuDfltOk e.specs → ∀ v, viewRecords e e' = .ok v →
-        ∃ vr, viewRecordsC e e' fresh (freshE fresh e') = .ok vr) :=
+        ∃ vr, viewRecordsC e e' fresh (freshE fresh e') = .ok vr) ∧
+      (∀ vr, viewRecordsC e e' fresh (freshE fresh e') = .ok vr → ∃ v, viewRecords e e' = .ok v) :=
   emit_step hc hs hi hf hE hfl (Sim.modelEvent hth hmh h)
+
+/-- **records vs the emit phase, failure.**  For the handlers of an accepted
+    event (`modelEvent = ok e'`): `records e e'` fails — always with "forbidden
+    value 0" — exactly when a system row fails (`sysRecords`, emitted from the
+    emulator's own channels) or `bay_propagate`'s emit phase fails. -/
+theorem emu_event_fail_iff {e e' : Emu} {b0 b : Bay} {ti mc c v : Nat} {p : List Nat}
+    {th mh : Emu → Nat → Nat → Nat → List Nat → Except Err Emu} (hth : HookSim th) (hmh : HookSim mh)
+    {fresh : Nat → Bool} {lvs : List (Option Value)} {tvs : List Int}
+    (hc : e.shape.connect = .ok b0) (hs : Shaped e) (hi : Inv b0 e b) (hf : FreshInv e.shape b fresh)
+    (hE : EmitInv e.shape.regs lvs tvs b) (hfl : SpecFlagsOk e.specs) (hd : CpuDfltOk e.specs)
+    (h : modelEvent e ti mc c v p th mh = .ok e') :
+    ∃ b1, Bay.Writes (· < e.shape.L) b b1 ∧ Mirrors e' b1 ∧
+      ((∃ x, records e e' = .error x) ↔
+        ((∃ x, sysRecords e' = .error x) ∨ (∃ y, b1.propagateP e.shape.regs lvs = .error y))) ∧
+      (∀ x, records e e' = .error x → x = .prvZero) ∧
+      (∀ y, b1.propagateP e.shape.regs lvs = .error y → y = .prvZero) := by
+  obtain ⟨b1, _, _, hw, hm1, _, _, _, _, _, h1, h2, _, h4, h5⟩ := emu_event_emit hth hmh hc hs hi hf hE hfl h
+  refine ⟨b1, hw, hm1, ?_, fun x hx => records_error_prvZero hx, h2⟩
+  rw [(records_split e e').2.2, ← h1]
+  have : (∃ x, viewRecords e e' = .error x) ↔ (∃ x, viewRecordsC e e' fresh (freshE fresh e') = .error x) := by
+    rw [except_error_iff_not_ok, except_error_iff_not_ok]
+    constructor
+    · rintro hn ⟨vr, hvr⟩; exact hn (h5 vr hvr)
+    · rintro hn ⟨v, hv⟩; exact hn (h4 hd v hv)
+  rw [this]
+
+/-- **records vs the emit phase, one accepted step** (`stepEv = ok (e2, rs)`:
+    handlers, `records`, flush).  The bay step with the PRV callbacks succeeds;
+    its lines `L` are a permutation of a list `Lr` in row order; the effective
+    lines of `Lr` are `viewRecordsC e e1`; and `rs`, the records of the step, are
+    — when no CPU of the hierarchy is fresh any more, e.g. once every CPU has run
+    a thread — a permutation of the system-row records followed by those
+    effective lines.  (With fresh CPUs the two differ only on their CPU rows
+    with a mux default: see `cpuViewC`.) -/
+theorem emu_step_records {e e2 : Emu} {b0 b : Bay} {ti mc c v : Nat} {p : List Nat} {rs : List PrvRec}
+    {th mh : Emu → Nat → Nat → Nat → List Nat → Except Err Emu} (hth : HookSim th) (hmh : HookSim mh)
+    {fresh : Nat → Bool} {lvs : List (Option Value)} {tvs : List Int}
+    (hc : e.shape.connect = .ok b0) (hs : Shaped e) (hi : Inv b0 e b) (hf : FreshInv e.shape b fresh)
+    (hE : EmitInv e.shape.regs lvs tvs b) (hfl : SpecFlagsOk e.specs) (hd : CpuDfltOk e.specs)
+    (h : stepEv e ti mc c v p th mh = .ok (e2, rs)) :
+    ∃ e1 b1 bF lvs' L Lr s vr, modelEvent e ti mc c v p th mh = .ok e1 ∧ e2 = e1.flushAll ∧
+      Bay.Writes (· < e.shape.L) b b1 ∧ b1.propagateP e.shape.regs lvs = .ok (bF, lvs', L) ∧
+      Inv b0 e2 bF ∧ FreshInv e.shape bF (freshE fresh e1) ∧ EmitInv e.shape.regs lvs' (tvStep tvs L) bF ∧
+      sysRecords e1 = .ok s ∧ viewRecordsC e e1 fresh (freshE fresh e1) = .ok vr ∧
+      L.Perm Lr ∧ vr = (Lr.filter (effective tvs)).map (·.2) ∧
+      ((∀ cg, cg < e.cpus.length → fresh cg = false) → rs.Perm (s ++ vr)) := by
+  obtain ⟨e1, hme, hrec, rfl⟩ := stepEv_ok h
+  obtain ⟨s, v, hsys, hv, hperm⟩ := (records_split e e1).1 _ hrec
+  obtain ⟨b1, bF, _, hw, _, _, _, _, hinv, hfF, _, _, h3, h4, _⟩ := emu_event_emit hth hmh hc hs hi hf hE hfl hme
+  obtain ⟨vr, hvr⟩ := h4 hd v hv
+  obtain ⟨lvs', L, Lr, hpp, hLr, hvrL, hE'⟩ := h3 vr hvr
+  refine ⟨e1, b1, bF, lvs', L, Lr, s, vr, hme, rfl, hw, hpp, hinv, hfF, hE', hsys, hvr, hLr, hvrL, ?_⟩
+  intro hnf
+  obtain ⟨hs1, hsh1, _⟩ := (Sim.modelEvent hth hmh hme) hs
+  have hlen : e1.cpus.length = e.cpus.length := congrArg Shape.nC hsh1
+  have : viewRecordsC e e1 fresh (freshE fresh e1) = viewRecords e e1 := by
+    apply viewRecordsC_of_settled hs1
+    · intro cg hcg; exact hnf cg (hlen ▸ hcg)
+    · intro cg hcg; unfold freshE; rw [hnf cg (hlen ▸ hcg)]; rfl
+  rw [this, hv] at hvr
+  injection hvr with hvr
+  rw [← hvr]; exact hperm
+
+/-- **emu_init with the emit phase.**  `emu_connect` for `mkEmu …`: connect,
+    the PRV registrations (`Shape.regs`, no `last_value` set, every row shows
+    0), the connect-time `chan_set`s, and the first `bay_propagate` — with the
+    PRV callbacks: it does not fail when the connect-time values are legal
+    Paraver values (`InitPrvOk`), and establishes `Inv`, `FreshInv` (every CPU
+    fresh) and `EmitInv`. -/
+theorem emu_init_emit (threads : List (Int × Int × Nat)) (cpus : List (Nat × Int × Bool)) (enabled : List Nat)
+    (lint : Bool) (extra : List ModelSpec) {b0 : Bay}
+    (hc : (mkEmu threads cpus enabled lint extra).shape.connect = .ok b0)
+    (hnt : 0 < threads.length)
+    (hchars : ((allSpecs.filter (fun s => enabled.contains s.char) ++ extra).map (·.char)).Nodup)
+    (hinit : InitSingle (allSpecs.filter (fun s => enabled.contains s.char) ++ extra))
+    (hfl : SpecFlagsOk (allSpecs.filter (fun s => enabled.contains s.char) ++ extra))
+    (hiv : InitPrvOk (allSpecs.filter (fun s => enabled.contains s.char) ++ extra)) :
+    Shaped (mkEmu threads cpus enabled lint extra) ∧
+    ∃ b1 bI lvs tvs L, Bay.Writes (· < (mkEmu threads cpus enabled lint extra).shape.L) b0 b1 ∧
+      b1.propagateP (mkEmu threads cpus enabled lint extra).shape.regs
+        (List.replicate (mkEmu threads cpus enabled lint extra).shape.regs.length none) = .ok (bI, lvs, L) ∧
+      Inv b0 (mkEmu threads cpus enabled lint extra) bI ∧
+      FreshInv (mkEmu threads cpus enabled lint extra).shape bI (fun _ => true) ∧
+      EmitInv (mkEmu threads cpus enabled lint extra).shape.regs lvs tvs bI := by
+  have hshape : (mkEmuWith ModelSpec.protoChans threads cpus enabled lint extra).shape =
+      (mkEmu threads cpus enabled lint extra).shape := by
+    rw [mkEmu_eq, mkEmuWith_shape, mkEmuWith_shape]
+  rw [← hshape] at hc ⊢
+  obtain ⟨hs0, hi0⟩ := Inv.pre_init threads cpus enabled lint extra hc hnt hchars
+  have hb := Shape.connect_built hc
+  obtain ⟨b1, bF, em, hw, _, _, hsF, _, hinv, hfF, _, _, h3, _, _⟩ :=
+    emit_step hc hs0 hi0 (FreshInv.connected hc rfl) (EmitInv.ofNull _ hb.topo.allNull) hfl
+      (sim_init threads cpus enabled lint extra hinit)
+  have hfr : freshE (fun _ => true) (mkEmuWith ModelSpec.dirtyChans threads cpus enabled lint extra) =
+      fun _ => true := by
+    funext c
+    unfold freshE
+    cases hx : (mkEmuWith ModelSpec.dirtyChans threads cpus enabled lint extra).cpus[c]? with
+    | none => rfl
+    | some x => simp only [mkEmuWith_cpu hx]; rfl
+  rw [hfr] at h3 hfF
+  obtain ⟨vr, hvr⟩ := init_rows_ok threads cpus enabled lint extra
+    (mkEmuWith ModelSpec.protoChans threads cpus enabled lint extra) (fun _ => true) hiv hchars
+  obtain ⟨lvs', L, _, hpp, _, _, hE⟩ := h3 vr hvr
+  rw [mkEmuWith_flushAll] at hsF hinv
+  exact ⟨hsF, b1, bF, lvs', _, L, hw, hpp, hinv, hfF, hE⟩
+
+/-- The bay side of a history, with the PRV callbacks: per event, the writes
+    of the handlers, then `bay_propagate` including its emit phase, which
+    succeeded and wrote the lines `L`. -/
+inductive RoundsP (regs : List PrvReg) (ok : Nat → Prop) :
+    Bay × List (Option Value) → List (List (Nat × PrvRec)) → Bay × List (Option Value) → Prop
+  | nil (s : Bay × List (Option Value)) : RoundsP regs ok s [] s
+  | cons {b b1 b2 : Bay} {lvs lvs' : List (Option Value)} {L : List (Nat × PrvRec)}
+      {rest : List (List (Nat × PrvRec))} {sF : Bay × List (Option Value)} :
+      Bay.Writes ok b b1 → b1.propagateP regs lvs = .ok (b2, lvs', L) → RoundsP regs ok (b2, lvs') rest sF →
+      RoundsP regs ok (b, lvs) (L :: rest) sF
+
+/-- **emu_history with the emit phase.**  For ANY list of events accepted by the
+    reference emulator (`replay`: handlers, `records`, flush), the bay reached by
+    replaying the handlers' writes and running `bay_propagate` WITH the PRV
+    callbacks after each event exists: the emit phase never fails on an accepted
+    history (`records` already refused every forbidden 0), and `Inv`, `FreshInv`
+    and `EmitInv` hold at the end — so `emu_event_emit` applies at every
+    instant: event by event the effective lines are `viewRecordsC`. -/
+theorem emu_history_emit {th mh : Emu → Nat → Nat → Nat → List Nat → Except Err Emu} (hth : HookSim th)
+    (hmh : HookSim mh) (evs : List Ev) : ∀ {e eF : Emu} {b0 b : Bay} {rs : List PrvRec} {fresh : Nat → Bool}
+      {lvs : List (Option Value)} {tvs : List Int},
+    e.shape.connect = .ok b0 → Shaped e → Inv b0 e b → FreshInv e.shape b fresh →
+    EmitInv e.shape.regs lvs tvs b → SpecFlagsOk e.specs → CpuDfltOk e.specs →
+    replay th mh e evs = .ok (eF, rs) →
+    ∃ bF lvsF freshF Ls, RoundsP e.shape.regs (· < e.shape.L) (b, lvs) Ls (bF, lvsF) ∧ Ls.length = evs.length ∧
+      Shaped eF ∧ eF.shape = e.shape ∧ Inv b0 eF bF ∧ FreshInv e.shape bF freshF ∧
+      EmitInv e.shape.regs lvsF (Ls.foldl tvStep tvs) bF := by
+  induction evs with
+  | nil =>
+    intro e eF b0 b rs fresh lvs tvs hc hs hi hf hE _ _ h
+    injection h with h; injection h with h1 _
+    subst h1
+    exact ⟨b, lvs, fresh, [], .nil _, rfl, hs, rfl, hi, hf, hE⟩
+  | cons ev evs ih =>
+    intro e eF b0 b rs fresh lvs tvs hc hs hi hf hE hfl hd h
+    rw [replay] at h
+    split at h
+    · cases h
+    · rename_i e2 rs1 hstep
+      split at h
+      · cases h
+      · rename_i eF' rs2 hrest
+        injection h with h; injection h with h1 _
+        subst h1
+        obtain ⟨e1, hme, hrec, rfl⟩ := stepEv_ok hstep
+        obtain ⟨_, v, _, hv, _⟩ := (records_split e e1).1 _ hrec
+        obtain ⟨b1, b2, em, hw, _, _, hs1, hsh1, hi1, hf1, _, _, h3, h4, _⟩ :=
+          emu_event_emit hth hmh hc hs hi hf hE hfl hme
+        obtain ⟨vr, hvr⟩ := h4 hd v hv
+        obtain ⟨lvs', L, _, hpp, _, _, hE1⟩ := h3 vr hvr
+        have hspecs1 : e1.flushAll.specs = e.specs := congrArg Shape.specs hsh1
+        obtain ⟨bF, lvsF, freshF, Ls, hr, hlen, hsF, hshF, hiF, hfF, hEF⟩ :=
+          ih (hsh1.symm ▸ hc) hs1 hi1 (hsh1.symm ▸ hf1) (hsh1.symm ▸ hE1) (hspecs1.symm ▸ hfl)
+            (hspecs1.symm ▸ hd) hrest
+        rw [hsh1] at hr hfF hEF
+        exact ⟨bF, lvsF, freshF, L :: Ls, .cons hw hpp hr, by simp [hlen], hsF, hshF.trans hsh1, hiF, hfF, hEF⟩
+
+/-- **emu_run with the emit phase**: from `emu_connect` on. -/
+theorem emu_run_emit {th mh : Emu → Nat → Nat → Nat → List Nat → Except Err Emu} (hth : HookSim th)
+    (hmh : HookSim mh) (threads : List (Int × Int × Nat)) (cpus : List (Nat × Int × Bool))
+    (enabled : List Nat) (lint : Bool) (extra : List ModelSpec) {b0 : Bay} (evs : List Ev) {eF : Emu}
+    {rs : List PrvRec}
+    (hc : (mkEmu threads cpus enabled lint extra).shape.connect = .ok b0)
+    (hnt : 0 < threads.length)
+    (hchars : ((allSpecs.filter (fun s => enabled.contains s.char) ++ extra).map (·.char)).Nodup)
+    (hinit : InitSingle (allSpecs.filter (fun s => enabled.contains s.char) ++ extra))
+    (hfl : SpecFlagsOk (allSpecs.filter (fun s => enabled.contains s.char) ++ extra))
+    (hiv : InitPrvOk (allSpecs.filter (fun s => enabled.contains s.char) ++ extra))
+    (hd : CpuDfltOk (allSpecs.filter (fun s => enabled.contains s.char) ++ extra))
+    (h : replay th mh (mkEmu threads cpus enabled lint extra) evs = .ok (eF, rs)) :
+    ∃ b1 bI lvsI L0 bF lvsF tvsF freshF Ls,
+      Bay.Writes (· < (mkEmu threads cpus enabled lint extra).shape.L) b0 b1 ∧
+      b1.propagateP (mkEmu threads cpus enabled lint extra).shape.regs
+        (List.replicate (mkEmu threads cpus enabled lint extra).shape.regs.length none) = .ok (bI, lvsI, L0) ∧
+      RoundsP (mkEmu threads cpus enabled lint extra).shape.regs
+        (· < (mkEmu threads cpus enabled lint extra).shape.L) (bI, lvsI) Ls (bF, lvsF) ∧
+      Ls.length = evs.length ∧ Shaped eF ∧ Inv b0 eF bF ∧
+      FreshInv (mkEmu threads cpus enabled lint extra).shape bF freshF ∧
+      EmitInv (mkEmu threads cpus enabled lint extra).shape.regs lvsF tvsF bF := by
+  obtain ⟨hs, b1, bI, lvsI, tvsI, L0, hw, hpp, hi, hf, hE⟩ :=
+    emu_init_emit threads cpus enabled lint extra hc hnt hchars hinit hfl hiv
+  obtain ⟨bF, lvsF, freshF, Ls, hr, hlen, hsF, _, hiF, hfF, hEF⟩ :=
+    emu_history_emit hth hmh evs hc hs hi hf hE hfl hd h
+  exact ⟨b1, bI, lvsI, L0, bF, lvsF, _, freshF, Ls, hw, hpp, hr, hlen, hsF, hiF, hfF, hEF⟩
+
+/-! ### The generated specs satisfy the side conditions of the emit theorems -/
+
+/-- Every channel of every model has a duplicate policy (`PRV_EMITDUP`,
+    `PRV_SKIPDUP` or `PRV_SKIPDUPNULL`: a duplicate is never an error) and no
+    `PRV_ZERO`. -/
+theorem generated_prv_flags :
+    ∀ s ∈ allSpecs, ∀ i ∈ List.range s.nch, DupOk (s.prvFlags.getD i 0) ∧ NoZero (s.prvFlags.getD i 0) := by
+  decide
+
+/-- The connect-time values and the CPU mux defaults are legal Paraver values. -/
+theorem generated_prv_values :
+    ∀ s ∈ allSpecs, ∀ i ∈ List.range s.nch,
+      prvOkB (s.prvFlags.getD i 0) ((s.freshChans.getD i {}).cur) = true ∧
+      prvOkB (s.prvFlags.getD i 0) (s.cpuDflt i) = true := by
+  decide
+
+/-- The side conditions of `emu_init_emit` / `emu_history_emit` hold for the
+    generated specs of any enabled set of models plus any mark table. -/
+theorem driver_emit_conditions (enabled : List Nat) (tab : List MarkType) :
+    let specs := allSpecs.filter (fun s => enabled.contains s.char) ++ markExtra tab
+    SpecFlagsOk specs ∧ InitPrvOk specs ∧ CpuDfltOk specs := by
+  intro specs
+  have hmem : ∀ m ∈ specs, m ∈ allSpecs ∨ (m = markSpec tab) := by
+    intro m hm
+    rcases List.mem_append.mp hm with h | h
+    · exact Or.inl (List.mem_filter.mp h).1
+    · right
+      unfold markExtra at h
+      split at h
+      · cases h
+      · simpa using h
+  have hmark : ∀ i, i < (markSpec tab).nch → (markSpec tab).prvFlags.getD i 0 = prvSkipDupNull := by
+    intro i hi
+    have hi' : i < tab.length := hi
+    simp [markSpec, List.getD_eq_getElem?_getD, List.getElem?_map, List.getElem?_eq_getElem hi']
+  have hmd : ∀ i, (markSpec tab).cpuDflt i = .null := by intro i; rfl
+  have hmf : ∀ i, ((markSpec tab).freshChans.getD i {}).cur = .null := by
+    intro i
+    simp only [ModelSpec.freshChans, markSpec, List.find?_nil, List.getD_eq_getElem?_getD, List.getElem?_map]
+    cases (List.range tab.length)[i]? <;> rfl
+  refine ⟨?_, ?_, ?_⟩
+  · intro m hm i hi
+    rcases hmem m hm with h | rfl
+    · exact generated_prv_flags m h i (List.mem_range.mpr hi)
+    · rw [hmark i hi]; decide
+  · intro m hm i hi
+    rcases hmem m hm with h | rfl
+    · exact prvOkB_ok (generated_prv_values m h i (List.mem_range.mpr hi)).1
+    · rw [hmf]; exact ⟨0, rfl⟩
+  · intro m hm i hi
+    rcases hmem m hm with h | rfl
+    · exact prvOkB_ok (generated_prv_values m h i (List.mem_range.mpr hi)).2
+    · rw [hmd]; exact ⟨0, rfl⟩
+
+/-- **emu_run with the emit phase, for the emulator as it is run**
+    (`Drivers/Emu.lean`: any hierarchy with at least one thread, any enabled
+    models, any mark table; hooks `noHook`, `markEvent`).  No other hypothesis:
+    `emu_connect`'s first `bay_propagate` and the one after every accepted event
+    succeed INCLUDING their PRV callbacks, and `Inv`, `FreshInv`, `EmitInv` hold
+    at the end. -/
+theorem emu_run_emit_driver (threads : List (Int × Int × Nat)) (cpus : List (Nat × Int × Bool))
+    (enabled : List Nat) (lint : Bool) (tab : List MarkType) (evs : List Ev) {eF : Emu} {rs : List PrvRec}
+    (hnt : 0 < threads.length)
+    (h : replay (fun _ _ _ _ _ => .error .unknownEvent) (fun e ti _ v p => markEvent tab e ti v p)
+      (mkEmu threads cpus enabled lint (markExtra tab)) evs = .ok (eF, rs)) :
+    ∃ b0 b1 bI lvsI L0 bF lvsF tvsF freshF Ls,
+      (mkEmu threads cpus enabled lint (markExtra tab)).shape.connect = .ok b0 ∧
+      Bay.Writes (· < (mkEmu threads cpus enabled lint (markExtra tab)).shape.L) b0 b1 ∧
+      b1.propagateP (mkEmu threads cpus enabled lint (markExtra tab)).shape.regs
+        (List.replicate (mkEmu threads cpus enabled lint (markExtra tab)).shape.regs.length none) =
+          .ok (bI, lvsI, L0) ∧
+      RoundsP (mkEmu threads cpus enabled lint (markExtra tab)).shape.regs
+        (· < (mkEmu threads cpus enabled lint (markExtra tab)).shape.L) (bI, lvsI) Ls (bF, lvsF) ∧
+      Ls.length = evs.length ∧ Shaped eF ∧ Inv b0 eF bF ∧
+      FreshInv (mkEmu threads cpus enabled lint (markExtra tab)).shape bF freshF ∧
+      EmitInv (mkEmu threads cpus enabled lint (markExtra tab)).shape.regs lvsF tvsF bF := by
+  obtain ⟨hmo, hchars, hinit⟩ := driver_side_conditions enabled tab
+  obtain ⟨hfl, hiv, hd⟩ := driver_emit_conditions enabled tab
+  have hc := bayOf_connects (e := mkEmu threads cpus enabled lint (markExtra tab)) hmo
+  obtain ⟨b1, bI, lvsI, L0, bF, lvsF, tvsF, freshF, Ls, h1, h2, h3, h4, h5, h6, h7, h8⟩ :=
+    emu_run_emit hookSim_none (hookSim_mark tab) threads cpus enabled lint (markExtra tab) evs hc hnt hchars
+      hinit hfl hiv hd h
+  exact ⟨_, b1, bI, lvsI, L0, bF, lvsF, tvsF, freshF, Ls, hc, h1, h2, h3, h4, h5, h6, h7, h8⟩
 
 /-
 -- OPEN (what is left of the last composition step).
@@ -1084,22 +1385,52 @@ theorem emu_event_emit {e e' : Emu} {b0 b : Bay} {ti mc c v : Nat} {p : List Nat
 -- the order in which the CPU track outputs enter the dirty list
 -- (`C20.dirty_level_ordered_sys`).
 --
+-- Proved since (section "The emit phase", `Emu/Emit.lean`, `Lemmas/Emit*.lean`,
+-- `Lemmas/CoreBayFresh.lean`): former item (1), `View.records` vs what the emit callbacks
+-- write, and former item (2), the one place where row values differ.
+--   * `Emu/Emit.lean` transcribes `prv_register` / `cb_prv` / `emit` (duplicate rules with
+--     `last_value`, `PRV_EMITDUP`, `PRV_SKIPDUP`, `PRV_SKIPDUPNULL`, `PRV_NEXT`, `PRV_ZERO`) and
+--     the second loop of `bay_propagate` (`Bay.propagateP`); `Shape.regs` is the table
+--     `model_pvt_connect_thread` / `_cpu` register (every track output / ANY raw channel).
+--   * The LITERAL statement "`records e e'` is a permutation of the lines `emit` writes" is
+--     FALSE for the code as it is (`decide` examples at the end of the file): an output is
+--     on the dirty list whenever its mux was re-selected, also with an unchanged value; with
+--     `PRV_EMITDUP` (Nanos6 task type / rank, OpenMP) and `PRV_SKIPDUPNULL` (all nOS-V
+--     channels, the marks) a non-null duplicate IS written again, and the first emission of
+--     any channel is written even when the value is null (line `…:0`).  `emitView` emits only
+--     on change.  The true relation, proved for every accepted event (`emit_step`,
+--     `emu_event_emit`, `emu_step_records`) and lifted to histories (`emu_history_emit`,
+--     `emu_run_emit`, `emu_run_emit_driver`): the lines written are a permutation of a list
+--     whose EFFECTIVE lines — those that change what their Paraver row shows — are exactly
+--     the model rows of `records`; every other line repeats the value its row already
+--     shows (invisible in a timeline; the e2e comparison X2 canonicalises them away).  The
+--     emit phase fails iff the model rows of `records` fail (`emu_event_fail_iff`), always
+--     with "forbidden value 0" (the duplicate error of `emit` cannot occur: every generated
+--     channel has a duplicate policy, `generated_prv_flags`).
+--   * Former (2): a CPU track with a mux default on a CPU whose `th_running` was never
+--     written shows null where `cpuView` shows the default.  Now exact: `cpuViewC fresh`
+--     (`emu_cpu_rows_fresh`, ghost `fresh` with invariant `FreshInv`); the model rows with
+--     `cpuViewC` are `viewRecordsC`, equal to `viewRecords` as soon as no CPU is fresh
+--     (`viewRecordsC_of_settled`).  Consequence for lines: when a fresh CPU gets its first
+--     thread and the new value equals the default, `emit` writes the default (the row showed
+--     0), `records` writes nothing (`cpuView` showed the default from the start) — the
+--     `strip_base` canonicalisation of X2.
+--
 -- Still open:
---  (1) `View.records` = what the emit callbacks see.  `emu_event` gives the VALUES of all
---      rows after every event; the RECORDS additionally need the emit side: `BAY_CB_EMIT`
---      on every track output / ANY raw channel, the PRV duplicate rules of `prv.c: emit`
---      (`PRV_SKIPDUP`, `PRV_SKIPDUPNULL`, `PRV_EMITDUP` per channel) and the statement
---      "`records e e'` is a permutation of the lines `emit` writes for `b1.emitPhase`".
---      An output is on the dirty list whenever its mux was re-selected, also with an
---      unchanged value; `View.emitView` emits only on change, i.e. it already folds the
---      SKIPDUP behaviour in.  Not modelled in Lean; covered by X2 (e2e comparison of
---      every PRV line with the real `ovniemu`).
---  (2) The one place where values differ (`emu_cpu_rows`, second disjunct): a CPU track
---      with a non-null default on a CPU whose `th_running` was never written shows null in
---      the bay (and in the C emulator), the default in `cpuView`.  No record is involved.
---  (3) The system channels that no mux reads (thread `cpu` / `tid`, CPU `nrunning` /
---      `pid` / `tid`) are not part of `bayOf`; their rows are `emitRaw` of the emulator
---      channel itself.
+--  (1) In `emu_step_records` the equation `rs ~ sysRecords ++ effective lines` is stated for
+--      states without fresh CPUs; with fresh CPUs the right-hand side is `viewRecordsC`
+--      (exact), which differs from `viewRecords` on the CPU rows with a mux default only.
+--  (2) `PRV_ZERO` channels are excluded from the emit theorems (`NoZero`: with `PRV_ZERO` null
+--      and 0 both show as 0 and "effective" would have to be stated on values, not lines);
+--      no model channel has the flag (`generated_prv_flags`), only the system row
+--      `nrunning`, which is part of (3).
+--  (3) The system channels (thread `cpu` / `tid` / `state` row, CPU `nrunning` / `pid` /
+--      `tid`) are not registered in `Shape.regs`: their rows are `emitRaw` of the emulator
+--      channel itself (`sysRecords`; `records_split`: `records` = `sysRecords` + `viewRecords`
+--      as multisets).  For them `emit` has no duplicate policy except `PRV_SKIPDUP` on the
+--      state row; that a dirty system channel never holds its `last_value` again is not
+--      proved here (the channels are not ALLOW_DUP, so `chan_set` refuses or ignores the
+--      value; covered by X2).
 --  (4) The task layer of nOS-V / Nanos6 (`VT*`, `VY*`, `6T*`, `6Y*`) is a hook of
 --      `modelEvent` (`Emu/Task.lean` has its own state); for it `HookSim` is a hypothesis
 --      (`hooks_in_use`: it holds for the hooks the driver runs, `noHook` and `markEvent`).
@@ -1398,5 +1729,116 @@ def exInitBay : Bay :=
 example : (exInitBay.chan (exEmu.shape.cpuOut 1 1 6)).cur = .null ∧
     (match exEmu.cpus[1]? with | some x => cpuView exEmu x specNosv 6 | none => .null) = .int 101 ∧
     (exInitBay.chan (exEmu.shape.idx (.raw 0 1 6))).cur = .int 100 ∧ exInitBay.dirty = [] := by decide
+
+/-! ### Non-vacuity of the emit theorems
+
+A thread with one raw stack channel tracked ACT: channels 0 = thread state,
+1 = raw channel, 2 = track output, registered as row 1, type 10 with
+`PRV_SKIPDUPNULL` (the nOS-V flags).  Event A: the thread starts running and
+pushes 7.  Event B: the thread goes to *cooling* — still active, so `cb_select`
+re-selects the same input and rewrites the output with the same value 7. -/
+
+def exPSrc : Bay :=
+  let b := (({} : Bay).register {}).1
+  (b.register { isStack := true }).1
+def exP0 : Bay := (unwrap (exPSrc, 0) (exPSrc.trackThread trackAct 0 1)).1
+def exPRegs : List PrvReg := [⟨2, 0, 1, 10, prvSkipDupNull⟩]
+def exPA1 : Bay := unwrap exP0 ((unwrap exP0 (exP0.chanSet 0 (.int 1))).chanPush 1 (.int 7))
+def exPA : Bay × List (Option Value) × List (Nat × PrvRec) :=
+  unwrap (exPA1, [], []) (exPA1.propagateP exPRegs [none])
+def exPB1 : Bay := unwrap exPA.1 (exPA.1.chanSet 0 (.int 4))
+def exPB : Bay × List (Option Value) × List (Nat × PrvRec) :=
+  unwrap (exPB1, [], []) (exPB1.propagateP exPRegs exPA.2.1)
+
+/-- Event A: one line, the one `emitView` gives; `last_value` becomes 7. -/
+example : exPA1.propagateP exPRegs [none] = .ok exPA ∧ exPA.2.2 = [(0, ⟨0, 1, 10, 7⟩)] ∧
+    exPA.2.1 = [some (.int 7)] ∧ exP0.viewRecs exPRegs exPA.1 = .ok [⟨0, 1, 10, 7⟩] :=
+  ⟨by rfl, by decide, by decide, by decide⟩
+
+/-- **The literal statement "`records` = the lines written" is false for the
+    code as it is.**  Event B: the output is dirty with an unchanged value; with
+    `PRV_SKIPDUPNULL` a non-null duplicate is written again, so the emit phase
+    writes the line `1:10:7` a second time, while `emitView` (hence `records`)
+    gives nothing.  The extra line is not *effective*: it repeats the 7 the row
+    already shows — exactly what `Bay.emit_step` / `emit_step` state. -/
+example : exPB1.propagateP exPRegs exPA.2.1 = .ok exPB ∧ exPB.2.2 = [(0, ⟨0, 1, 10, 7⟩)] ∧
+    exPA.1.viewRecs exPRegs exPB.1 = .ok [] ∧ exPB.2.2.filter (effective [7]) = [] :=
+  ⟨by rfl, by decide, by decide, by decide⟩
+
+/-- Same with a thread that starts running with an EMPTY channel: `cb_select`
+    writes null to the never-emitted output, `last_value` is not set, so `emit`
+    writes the line `1:10:0`; `emitView null null` gives nothing.  Not effective
+    either: a row shows 0 before its first line. -/
+example :
+    let b1 := unwrap exP0 (exP0.chanSet 0 (.int 1))
+    (match b1.propagateP exPRegs [none] with
+      | .ok (bF, _, L) => decide (L = [(0, ⟨0, 1, 10, 0⟩)] ∧ exP0.viewRecs exPRegs bF = .ok [] ∧
+          L.filter (effective [0]) = [])
+      | .error _ => false) = true := by decide
+
+/-- The failure case: pushing the value 0 on a channel without `PRV_ZERO`.
+    Both sides fail with "forbidden value 0". -/
+example :
+    let b1 := unwrap exP0 ((unwrap exP0 (exP0.chanSet 0 (.int 1))).chanPush 1 (.int 0))
+    (match b1.propagateP exPRegs [none] with
+      | .error x => decide (x = .prvZero)
+      | .ok _ => false) = true ∧
+    (match b1.propagate with
+      | .ok (bF, _) => decide (exP0.viewRecs exPRegs bF = .error .prvZero)
+      | .error _ => false) = true := by decide
+
+/-- `Bay.emit_step` applies to event B: all its hypotheses hold (`EmitInv`
+    after event A comes from `Bay.emit_step` for event A, from the all-null bay). -/
+example : ∃ lvs tvs, EmitInv exPRegs lvs tvs exPA.1 := by
+  have hfl : ∀ r ∈ exPRegs, DupOk r.flags ∧ NoZero r.flags := by decide
+  have wf0 : exP0.WF := by
+    have w : exPSrc.WF := (Bay.WF.empty.register _ rfl).register _ rfl
+    have h1 : exPSrc.trackThread trackAct 0 1 = .ok (exP0, 2) := by rfl
+    obtain ⟨_, b1, mi, h2, h3⟩ := Bay.trackThread_ok (Or.inr rfl) h1
+    obtain ⟨w1, hmi, hmx, _⟩ := (w.register {} rfl).muxInit h2
+    exact (w1.muxSetInput h3 (by
+      intro m hm
+      have hmi0 : mi = 0 := hmi
+      subst hmi0
+      rw [hmx] at hm
+      have : (exPSrc.register {}).1.muxes = [] := rfl
+      rw [this] at hm
+      simp only [List.nil_append, List.getElem?_cons_zero, Option.some.injEq] at hm
+      subst hm; decide)).1
+  have hnull : exP0.AllNull := by
+    intro c
+    match c with
+    | 0 => rfl
+    | 1 => rfl
+    | 2 => rfl
+    | _ + 3 => rfl
+  have hw : Bay.Writes (fun _ => True) exP0 exPA1 :=
+    .snoc (b1 := unwrap exP0 (exP0.chanSet 0 (.int 1))) (c := 1)
+      (f := fun x => Chan.push (unwrap exP0 (exP0.chanSet 0 (.int 1))).maxStack x (.int 7))
+      (.snoc (b1 := exP0) (c := 0) (f := fun x => x.set (.int 1)) (.nil _) trivial (chanOp_set _) (by rfl))
+      trivial (chanOp_push _ _) (by rfl)
+  have hp : exPA1.propagate = .ok (exPA.1, []) := by rfl
+  obtain ⟨_, _, h3⟩ := Bay.emit_step wf0 hw hp (EmitInv.ofNull exPRegs hnull) hfl
+  obtain ⟨lvs', L, _, hpp, _, _, hE⟩ := h3 _ (by decide : exP0.viewRecs exPRegs exPA.1 = .ok [⟨0, 1, 10, 7⟩])
+  exact ⟨lvs', _, hE⟩
+
+/-- The emulator-level theorems apply to the concrete history `exHist` on
+    `exEmu` (ovni + nOS-V, two threads, two CPUs — nOS-V has an idle channel with
+    a CPU mux default, so both CPUs start fresh): all hypotheses of
+    `emu_run_emit` hold, hence the emit phase succeeds at connect time and after
+    each of the six events, and the invariants hold at the end. -/
+example : ∃ eF rs bF lvsF tvsF freshF, replay exNoHook exNoHook exEmu exHist = .ok (eF, rs) ∧
+    Inv exEmuBay eF bF ∧ FreshInv exEmu.shape bF freshF ∧ EmitInv exEmu.shape.regs lvsF tvsF bF := by
+  cases h : replay exNoHook exNoHook exEmu exHist with
+  | error x => have := exHist_accepted; rw [h] at this; cases this
+  | ok r =>
+    obtain ⟨eF, rs⟩ := r
+    obtain ⟨hfl, hiv, hd⟩ := driver_emit_conditions [79, 86] []
+    obtain ⟨_, _, _, _, bF, lvsF, tvsF, freshF, _, _, _, _, _, _, hiF, hfF, hEF⟩ :=
+      emu_run_emit hookSim_none hookSim_none _ _ _ _ _ exHist exEmuBay_connect (by decide) exEmu_chars
+        exEmu_initSingle hfl hiv hd h
+    exact ⟨eF, rs, bF, lvsF, tvsF, freshF, rfl, hiF, hfF, hEF⟩
+
+example : exEmu.shape.regs.length = 32 ∧ (exEmu.shape.regs.map (·.chan)).Nodup := by decide
 
 end Ovni.Props.C06
